@@ -10,6 +10,7 @@ import (
 	"path/filepath"
 	"sort"
 	"strings"
+	"syscall"
 	"testing/fstest"
 	"time"
 
@@ -47,6 +48,9 @@ type Dir struct {
 	// Orders and equalities of modification times are the same under every unit; only the real
 	// distances differ (down to fractions of a second).
 	Unit time.Duration `json:",omitempty"`
+	// Future moves the whole logical clock decades ahead of the wall clock (a tree copied from a machine whose clock
+	// runs ahead, an archive with odd dates): only the order of modification times means anything.
+	Future bool `json:",omitempty"`
 }
 
 // At converts a logical time to the file time the code under test sees.
@@ -55,8 +59,13 @@ func (d *Dir) At(m int64) time.Time {
 	if u == 0 {
 		u = time.Second
 	}
+	if d.Future {
+		return futureEpoch.Add(time.Duration(m) * u)
+	}
 	return Epoch.Add(time.Duration(m) * u)
 }
+
+var futureEpoch = time.Date(2093, 4, 5, 6, 7, 8, 0, time.UTC)
 
 func NewDir() *Dir { return &Dir{Files: map[string]*FileRec{}} }
 
@@ -77,7 +86,7 @@ func (d *Dir) Touch(path string) {
 }
 
 func (d *Dir) Clone() *Dir {
-	o := &Dir{Files: make(map[string]*FileRec, len(d.Files)), Clock: d.Clock, Unit: d.Unit}
+	o := &Dir{Files: make(map[string]*FileRec, len(d.Files)), Clock: d.Clock, Unit: d.Unit, Future: d.Future}
 	for k, v := range d.Files {
 		o.Files[k] = &FileRec{Data: append([]byte(nil), v.Data...), MTime: v.MTime}
 	}
@@ -126,7 +135,10 @@ type WriteRec struct {
 type FaultAction struct {
 	Write int
 	Fail  bool // the call reports an error
-	Die   bool // the process dies right after the call
+	// Errno selects the error a failing call reports: "" = an opaque error; "EACCES", "EPERM", "EROFS", "ENOSPC", "EIO" =
+	// an *fs.PathError carrying that errno, as the operating system would return it
+	Errno string `json:",omitempty"`
+	Die   bool   // the process dies right after the call
 }
 
 // Fault decides what happens at the k-th WriteFile call (0-based).
@@ -135,6 +147,15 @@ type Fault func(k int, path string, data []byte) FaultAction
 // ErrDied is the panic value used to simulate process death.
 var ErrDied = errors.New("harness: simulated process death")
 var ErrInjected = errors.New("harness: injected write error")
+
+// InjectedError builds the error of a failing WriteFile.
+func InjectedError(a FaultAction, path string) error {
+	no := map[string]syscall.Errno{"EACCES": syscall.EACCES, "EPERM": syscall.EPERM, "EROFS": syscall.EROFS, "ENOSPC": syscall.ENOSPC, "EIO": syscall.EIO}
+	if e, ok := no[a.Errno]; ok {
+		return &fs.PathError{Op: "open", Path: path, Err: e}
+	}
+	return ErrInjected
+}
 
 // MemFS implements gopki's exported filesystem.Filesystem over a Dir.
 type MemFS struct {
@@ -179,7 +200,7 @@ func (m *MemFS) WriteFile(name string, content []byte) error {
 		panic(ErrDied)
 	}
 	if act.Fail {
-		return ErrInjected
+		return InjectedError(act, name)
 	}
 	return nil
 }
@@ -428,7 +449,7 @@ func (f *FaultFS) WriteFile(name string, content []byte) error {
 		panic(ErrDied)
 	}
 	if act.Fail {
-		return ErrInjected
+		return InjectedError(act, name)
 	}
 	return err
 }
